@@ -64,6 +64,10 @@ class C15(Check):
         for first in range(len(OPS)):
             for second in range(len(OPS)):
                 out.append({"steps": k, "first": first, "second": second})
+        # the same histories after a subprocess was started (the start wrapper re-binds the cell-size cache and its lock to
+        # process-shared objects): everything must keep working on the re-bound objects
+        for first, second in ((4, 1), (4, 2), (1, 4), (0, 4)):
+            out.append({"steps": k, "first": first, "second": second, "mp": True})
         from . import C15b
 
         return out + C15b.shapes(tier) + [{"part": "terminal_size_cached", "steps": 3 if tier == "quick" else 5}]
@@ -89,7 +93,32 @@ class C15(Check):
         utils._tty_fd = 99
         utils._queries_enabled = True
         utils._swap_win_size = False
-        utils._cell_size_cache[:] = [0] * 4
+        import threading
+
+        utils._cell_size_cache = [0] * 4  # (fresh objects: an earlier path may have re-bound them)
+        utils._cell_size_lock = threading.RLock()
+        utils._tty_lock = threading.RLock()
+        utils._rlock_type = type(utils._tty_lock)
+        if shape.get("mp"):
+            class SharedLock:
+                def __enter__(s_):
+                    return s_
+
+                def __exit__(s_, *a):
+                    return False
+
+            class SharedArray(list):
+                def __init__(s_, typ, init):
+                    super().__init__(init)
+                    s_._lock = SharedLock()
+
+                def get_lock(s_):
+                    return s_._lock
+
+            utils.mp_RLock = SharedLock
+            utils.Array = SharedArray
+            utils._process_start_wrapper.__wrapped__ = lambda self_, *a, **k: None
+            utils._process_start_wrapper(type("P", (), {})())
         ti._cell_ratio = 0.5
         ti.AutoCellRatio.is_supported = None
         utils.get_fg_bg_colors._invalidate_cache()
